@@ -34,7 +34,7 @@ OPS = ([("set", k, v) for k in ("a", "z", "m") for v in ("5", '"s"', "{ k = 1; }
 def docs(tier):
     for d, t in E.documents(tier):
         w, c = d.split("/")
-        if w in ("bare", "lambda", "let", "lambda-call", "let2", "rec", "let-twins") and c in ("flat", "nested", "attrpath", "attrpath1", "comments", "attrpath-deep", "inline", "twins"):
+        if w in ("bare", "lambda", "let", "lambda-call", "let2", "rec", "let-twins") and c in ("flat", "nested", "attrpath", "attrpath1", "comments", "attrpath-deep", "inline", "twins", "attrpath-interleaved"):
             yield d, t
 
 
@@ -136,18 +136,31 @@ def eval_script(doc_id, text, script):
             return f"step{k}:{kind}:text-and-mapping-model-disagree"
         if lay != layers:
             return f"step{k}:{kind}:scope-text-and-model-disagree"
-        # ---- lookups agree with model
-        for key, val in model.items():
-            try:
-                v = src[key]
-            except Exception as e:
-                return f"step{k}:{kind}:lookup-of-present-key-raises-{type(e).__name__}"
-            if isinstance(val, str):
-                from nix_manipulator.expressions.expression import coerce_expression
+        # ---- lookups agree with model (recursively through nested sets: the text shows exactly what the mapping reports)
+        sym = _lookups_agree(src, model, 0)
+        if sym:
+            return f"step{k}:{kind}:{sym}"
+    return None
 
-                rt = coerce_expression(v).rebuild()
-                if vtext(rt) != val:
-                    return f"step{k}:{kind}:lookup-returns-another-value"
+
+def _lookups_agree(obj, model, depth):
+    from nix_manipulator.expressions.expression import coerce_expression
+
+    for key, val in model.items():
+        if isinstance(val, tuple):
+            continue  # inherited names: the mapping hands out a proxy, not compared here
+        try:
+            v = obj[key]
+        except Exception as e:
+            return f"lookup-of-present-key-raises-{type(e).__name__}" + ("-in-nested-set" if depth else "")
+        if isinstance(val, str):
+            rt = coerce_expression(v).rebuild()
+            if vtext(rt) != val:
+                return "lookup-returns-another-value" + ("-in-nested-set" if depth else "")
+        elif isinstance(val, dict) and depth < 4 and hasattr(v, "__getitem__") and hasattr(v, "values"):
+            sym = _lookups_agree(v, val, depth + 1)
+            if sym:
+                return sym
     return None
 
 
